@@ -250,6 +250,11 @@ func observe(db *DB, kvKeys [][]byte, structures bool) []obsItem {
 				it.set = m
 			}
 			out = append(out, it)
+			c, err := tx.SCard(bucketSet, k)
+			if err != nil {
+				c = 0
+			}
+			out = append(out, obsItem{tag: "scard:" + string(k), err: err != nil, nums: []int{c}})
 		}
 		nodes, err := tx.ZRangeByRank(bucketZSet, 1, -1)
 		it := obsItem{tag: "zrange", err: err != nil}
@@ -276,6 +281,10 @@ func vScoreIdx(f float64) int {
 	return -1
 }
 
+// vObsStrict: also require that the same reads fail on both sides (used where both sides run the same
+// code on the same history, e.g. before Close vs after Open: there "error" and "empty" must not swap).
+var vObsStrict bool
+
 // obsSame builds one formula: the two observations agree. "Error" and "empty" are the same outcome
 // (DESIGN §4.1: wherever a result is empty the API may report an error instead).
 func obsSame(a, b []obsItem) bool {
@@ -286,6 +295,9 @@ func obsSame(a, b []obsItem) bool {
 	for i := range a {
 		x, y := a[i], b[i]
 		if x.tag != y.tag || len(x.seq) != len(y.seq) || len(x.set) != len(y.set) || len(x.nums) != len(y.nums) {
+			return false
+		}
+		if vObsStrict && x.err != y.err {
 			return false
 		}
 		for j := range x.seq {
